@@ -63,29 +63,32 @@ pub struct SliceIter<'a, T> {
     s: &'a [T],
 }
 impl<'a, T: Sync> SliceIter<'a, T> {
-    pub fn map<F, R>(self, f: F) -> Map<'a, T, F>
+    pub fn map<F, R>(self, f: F) -> Map<'a, T, F, R>
     where
         F: Fn(&'a T) -> R + Sync + Send,
         R: Send,
     {
-        Map { s: self.s, f }
+        Map { s: self.s, f, r: std::marker::PhantomData }
     }
 }
 
-pub struct Map<'a, T, F> {
+pub struct Map<'a, T, F, R> {
     s: &'a [T],
     f: F,
+    r: std::marker::PhantomData<R>,
 }
 
 fn add<S: Sum<S>>(l: S, r: S) -> S {
     [l, r].into_iter().sum()
 }
 
-impl<'a, T: Sync, F> Map<'a, T, F> {
-    pub fn sum<S, R>(self) -> S
+impl<'a, T: Sync, F, R> Map<'a, T, F, R>
+where
+    F: Fn(&'a T) -> R + Sync + Send,
+    R: Send,
+{
+    pub fn sum<S>(self) -> S
     where
-        F: Fn(&'a T) -> R + Sync + Send,
-        R: Send,
         S: Send + Sum<R> + Sum<S>,
     {
         let mut state = SEED.with(|s| s.get());
